@@ -71,6 +71,8 @@ var badPayloads = []string{
 	`{"type":"teleport","recipient":"x","fee":"1"}`,
 	`not json`,
 	`{"type":"send_to_ethereum","recipient":"0x58BD8047F441B9D511aEE9c581aEb1caB4FE0b6d","fee":"1.5"}`,
+	// payloads that parse but leave fields out, and the JSON value null
+	`{"fee":"0"}`, `{}`, `null`, `{"recipient":"0x58BD8047F441B9D511aEE9c581aEb1caB4FE0b6d"}`, `{"type":"send_to_hub","fee":"0"}`,
 }
 
 func genCursorCase(t *rapid.T) interface{} {
